@@ -25,9 +25,9 @@ EXPLANATION = (
     "All rules interpret the AST of the store classes over finite domains (no repo code runs). The oracle `spec` is the statement: a handler "
     "matches a query iff for every list filter `<f>_in` that is not None the list is non-empty and contains the handler's `<f>`, and `is_idle` (if "
     "not None) equals `idle_since is not None`; the fields are enumerated from the `HandlerQuery` dataclass (an unknown field kind is exit 2). "
-    "R1: for a population of 8 handlers and every query in the product {None, [], [v], [v, v']}^4 x {None, True, False}, `query` of each store "
+    "R1: for a population of 8 handlers and every query in the product {None, [], [values]}^4 x {None, True, False} plus single-filter queries with further value lists, `query` of each store "
     "returns exactly the handlers `spec` selects; for every such query with at least one filter `delete` returns their number and removes "
-    "exactly them; for every sequence of at most 3 operations from {upsert, status update, delete by id, delete by status} both stores end "
+    "exactly them; for every sequence of at most 2 (thorough: 3) operations from {upsert, status update, delete by id, delete by status} both stores end "
     "with the handler set of a reference dictionary model (hence identical to each other). Behaviour of `delete` with no filter at all is only "
     "compared and reported as an observation. "
     "R2: for max_completed in {0,1,2} and every sequence (length <= 3 quick, <= 4 thorough) of upserts (3 ids x running/completed), status "
@@ -165,11 +165,12 @@ POPULATION = [
     dict(handler_id="h7", workflow_name="w2", status="completed", run_id="r7", idle_since=None),
     dict(handler_id="h8", workflow_name="w1", status="running", run_id="r8", idle_since=None),
 ]
+# per list filter: values used in the full product, and extra values used when the filter stands alone
 VALUES = {
-    "handler_id": [None, [], ["h1"], ["h2", "h3", "zz"]],
-    "run_id": [None, [], ["r2"], ["r1", "r3", "zz"]],
-    "workflow_name": [None, [], ["w1"], ["w2", "w9"]],
-    "status": [None, [], ["running"], ["completed", "failed"]],
+    "handler_id": ([None, [], ["h1", "h2", "h3", "h5", "h7", "zz"]], [["h1"], ["zz"], ["h8", "h8"]]),
+    "run_id": ([None, [], ["r1", "r2", "r3", "zz"]], [["r2"], ["zz"], ["r7", "r6"]]),
+    "workflow_name": ([None, [], ["w1", "w9"]], [["w2"], ["w9"], ["w3", "w2"]]),
+    "status": ([None, [], ["running", "completed"]], [["running"], ["failed", "cancelled"], ["completed"]]),
 }
 
 
@@ -184,14 +185,16 @@ def _guard(rule: str, what: str, f: Callable[[], Any]) -> Any:
 
 def _queries(h: Harness) -> list[dict]:
     doms = []
+    singles: list[dict] = []
     for f, kind, attr in h.fields:
         if kind == "in":
             if attr not in VALUES:
                 raise AnchorError(f"C24.R1: no value domain for HandlerQuery.{f}")
-            doms.append([(f, v) for v in VALUES[attr]])
+            doms.append([(f, v) for v in VALUES[attr][0]])
+            singles += [{f: v} for v in VALUES[attr][1]]
         else:
             doms.append([(f, v) for v in (None, True, False)])
-    return [dict(c) for c in itertools.product(*doms)]
+    return [dict(c) for c in itertools.product(*doms)] + [{**{f: None for f, _k, _a in h.fields}, **s} for s in singles]
 
 
 def _slot(q: dict) -> str:
@@ -254,7 +257,7 @@ def rule_r1(chk: Any, h: Harness) -> None:
                    slot not in bad_q, m=m, node=meths["query"], fn=meths["query"], instance=f"{kind}:query:{slot}", reason=bad_q.get(slot, ""))
             chk.ob("C24.R1", f"{kind} store: `delete` with at least one filter removes exactly the matching handlers and returns their number ({slot})",
                    slot not in bad_d, m=m, node=meths["delete"], fn=meths["delete"], instance=f"{kind}:delete:{slot}", reason=bad_d.get(slot, ""))
-    chk.floor("C24.R1", "query/delete evaluations against the oracle (2 stores)", total, 2 * 2 * 700)
+    chk.floor("C24.R1", "query/delete evaluations against the oracle (2 stores)", total, 2 * 2 * 250)
     chk.floor("C24.R1", "HandlerQuery filter fields enumerated from the dataclass", len(h.fields), 5)
     if nolist.get("memory") != nolist.get("sqlite"):
         chk.observe(f"filter-less HandlerQuery(): memory store {nolist.get('memory')} vs SQLite store {nolist.get('sqlite')} over 8 handlers — `delete(HandlerQuery())` "
@@ -308,7 +311,7 @@ def _ops_r1(h: Harness) -> list[tuple[str, Callable[[StoreModel], Any], Callable
 
 def rule_r1_sequences(chk: Any, h: Harness, anchors: dict) -> None:
     ops = _ops_r1(h)
-    depth = 3
+    depth = 3 if chk.tier == "thorough" else 2
     n = 0
     for kind in ("memory", "sqlite"):
         m, meths = anchors[kind]
@@ -336,18 +339,18 @@ def rule_r1_sequences(chk: Any, h: Harness, anchors: dict) -> None:
         _guard("C24.R1", f"{kind} operation sequences", lambda: rec(h.store(kind), {}, [], 0))
         chk.ob("C24.R1", f"{kind} store: after every sequence of <= {depth} upserts / status updates / deletes the handlers visible to `query` equal a reference dictionary model (so both stores agree)",
                not bad, m=m, node=meths["update"], fn=meths["update"], instance=f"{kind}:sequences", reason=bad)
-    chk.floor("C24.R1", "operation-sequence states compared with the reference model", n, 2 * 500)
+    chk.floor("C24.R1", "operation-sequence states compared with the reference model", n, 2 * 90)
 
 
 # ---------------------------------------------------------------------------- R2 / R3
 
 
-def _evict_ops(h: Harness, ids: list[str]) -> list[tuple[str, str, str, Any]]:
+def _evict_ops(ids: list[str], ndel: int) -> list[tuple[str, str, str, Any]]:
     ops: list[tuple[str, str, str, Any]] = []
     for i in ids:
         ops.append((f"upsert({i},running)", "up", i, "running"))
         ops.append((f"upsert({i},completed)", "up", i, "completed"))
-    for i in ids[:2]:
+    for i in ids[:ndel]:
         ops.append((f"delete(id=[{i}])", "del", i, None))
     ops.append((f"status(r{ids[0]},completed)", "st", ids[0], {"status": "completed"}))
     ops.append((f"status(r{ids[0]},idle_since=None)", "st", ids[0], {"idle_since": None}))
@@ -359,7 +362,6 @@ def rule_r2_r3(chk: Any, h: Harness, depth: int) -> None:
     m = repo.module(MEM)
     meths = repo.methods(MEM_CLS)
     upd = meths["update"]
-    ops = _evict_ops(h, ["A", "B", "C"])
     fails: dict[str, str] = {}
     states = 0
 
@@ -372,13 +374,12 @@ def rule_r2_r3(chk: Any, h: Harness, depth: int) -> None:
         else:
             s.call("update_handler_status", "r" + i, **arg)
 
-    def explore(cap: Any, s: StoreModel, track: dict, trail: list[str], level: int) -> None:
+    def explore(cap: Any, ops: list, depth: int, s: StoreModel, pre: dict, track: dict, trail: list[str], level: int) -> None:
         nonlocal states
         if level == depth:
             return
         for op in ops:
             label, kind, i, arg = op
-            pre = {k: v[0] for k, v in s.listing().items()}
             s2 = s.fork()
             try:
                 apply(s2, op)
@@ -436,15 +437,16 @@ def rule_r2_r3(chk: Any, h: Harness, depth: int) -> None:
                 for k in list(tr):
                     if k not in post:
                         tr.pop(k)
-            explore(cap, s2, tr, trail + [label], level + 1)
+            explore(cap, ops, depth, s2, post, tr, trail + [label], level + 1)
 
-    for cap in (0, 1, 2, None):
-        d = depth if cap is not None else min(depth, 2)
-        saved = depth
-        depth = d
-        _guard("C24.R2", "memory store eviction sequences", lambda: explore(cap, h.store("memory", cap), {}, [], 0))
-        depth = saved
-    chk.floor("C24.R2", "store states checked after an operation (max_completed in {0,1,2,None})", states, 1500)
+    # cap 1 needs two ids, cap 2 three (ordering among three completions); caps 0 / None are degenerate and get shorter sequences
+    plans = [(1, _evict_ops(["A", "B"], 1), depth), (2, _evict_ops(["A", "B", "C"], 1), depth), (0, _evict_ops(["A", "B"], 1), min(depth, 2)), (None, _evict_ops(["A", "B"], 1), min(depth, 2))]
+    if depth > 3:
+        plans[0] = (1, _evict_ops(["A", "B", "C"], 2), depth)
+        plans[1] = (2, _evict_ops(["A", "B", "C"], 2), depth)
+    for cap, ops, d in plans:
+        _guard("C24.R2", "memory store eviction sequences", lambda: explore(cap, ops, d, h.store("memory", cap), {}, {}, [], 0))
+    chk.floor("C24.R2", "store states checked after an operation (max_completed in {0,1,2,None})", states, 900)
     evict = meths.get("_evict_oldest_completed", upd)
     chk.ob("C24.R2", f"memory store retains min(max_completed, #completed) completed handlers after every upsert (all sequences of <= {depth} operations, caps 0..2)",
            "retention-count" not in fails, m=m, node=upd, fn=upd, instance="retention-count", reason=fails.get("retention-count", ""))
@@ -470,13 +472,15 @@ def rule_r4(chk: Any, h: Harness) -> None:
     n = 0
     for kind in ("memory", "sqlite"):
         bad = ""
-        for init_status, init_idle, init_err in (("running", None, None), ("running", T0, "old"), ("completed", None, None)):
+        empty = h.store(kind)
+        for init_status, init_idle, init_err in (("running", T0, "old"), ("completed", None, None)):
+            base = empty.fork()
+            base.call("update", h.handler(handler_id="A", workflow_name="w", status=init_status, run_id="rA", idle_since=init_idle, error=init_err, started_at=FakeDT("S")))
+            base.call("update", h.handler(handler_id="B", workflow_name="w", status="running", run_id="rB"))
             for status in (None, "running", "completed", "failed", "cancelled"):
                 for error in (None, "boom"):
                     for idle in (UN, None, T0):
-                        s = h.store(kind)
-                        s.call("update", h.handler(handler_id="A", workflow_name="w", status=init_status, run_id="rA", idle_since=init_idle, error=init_err, started_at=FakeDT("S")))
-                        s.call("update", h.handler(handler_id="B", workflow_name="w", status="running", run_id="rB"))
+                        s = base.fork()
                         kw: dict = {}
                         if status is not None:
                             kw["status"] = status
@@ -504,9 +508,9 @@ def rule_r4(chk: Any, h: Harness) -> None:
                             diff["updated_at"] = (None, "set")
                         if diff and not bad:
                             bad = f"{kind}: update_handler_status({_fmt(kw) or 'nothing'}) on status={init_status}, idle={init_idle}, error={init_err}: (got, expected) {diff}"
-        chk.ob("C24.R4", f"{kind} store: `update_handler_status` changes exactly the requested fields (status/error/idle_since in unset/None/value; 90 combinations)",
+        chk.ob("C24.R4", f"{kind} store: `update_handler_status` changes exactly the requested fields (status/error/idle_since in unset/None/value; 60 combinations)",
                not bad, m=m, node=fn, fn=fn, instance=f"{kind}:status-update-fields", reason=bad)
-    chk.floor("C24.R4", "status-update combinations evaluated", n, 150)
+    chk.floor("C24.R4", "status-update combinations evaluated", n, 120)
 
 
 # ---------------------------------------------------------------------------- run
